@@ -14,6 +14,7 @@ EXPLANATION = (
     "splicing/removal; (R4) the segment reader reports a torn tail only on length shortfall and an error on any complete "
     "record that fails a check; decode errors are propagated. That every bit flip is detected is NOT decided (BLAKE3 assumed)."
     ' Round 2: guard strength on every validation row (confirmed relation; no new bypass condition); a torn tail is declared only on a length shortfall (offset-vs-length test or checked-add overflow), never on byte content.'
+    ' (R5) the per-segment evidence compared with the manifest derives from reading the segment files, not from the recovery scan it is checked against.'
 )
 ASSUMPTIONS = ["BLAKE3 collision resistance", "frames and commits are presented to recovery in file order"]
 FLOOR = 70
